@@ -46,7 +46,7 @@ CHECKS = {
   "runtime monitor with blocking injected inside the scripted implementation; offline order checker over the invocation log and the wire for shared-tag groups",
   "Every non-empty subset of 6 outstanding requests is held inside the implementation (issued before or after the others, Maxpend 0/1/4, with and without schedule perturbation) while the remaining "
   "requests and one on a second connection must be answered; shared-tag groups of 2..8 are checked for one-at-a-time execution in arrival order and in-order replies by holding each member in turn. "
-  "A reply that arrives only after the blockers were released is the witness. Held on the subsets/groups run. Also held blocked: a Tflush inside FlushOp, Tclunk/Tremove/failed Twalk inside FidDestroy, requests inside AuthInit/AuthCheck/AuthRead/AuthWrite/AuthDestroy, a connection inside ConnOpened, requests (also ones the framework refuses) inside the SrvReqProcess/SrvReqRespond hooks, and a client that stops reading its replies.",
+  "A reply that arrives only after the blockers were released is the witness. Held on the subsets/groups run. Also held blocked: a Tflush inside FlushOp, Tclunk/Tremove/failed Twalk inside FidDestroy, requests inside AuthInit/AuthCheck/AuthRead/AuthWrite/AuthDestroy, requests (also ones the framework refuses) inside the SrvReqProcess/SrvReqRespond hooks; and, end to end, go9p's own client issuing a shared-tag group through its Tag interface.",
   "bounded progress with a 15 s watchdog that is never itself the verdict; Tversion excepted",
   "DESIGN.md §5 C08"),
  "C11": ("srvlab", "fault_enumeration",
